@@ -111,7 +111,10 @@ fn judge(op: &Op, got: &ExecInfo, reference: &Outcome) -> Result<bool, (String, 
         return Ok(false);
     }
     if let Some(f) = &op.fault {
-        if got.fault_fired && f.kind.may_fail() && got.outcome.is_generic_err() {
+        // any error kind is accepted: C15/C20 do not prescribe how a failed
+        // read is reported (a missing file could as well be a RangeError
+        // "unknown time zone"), only that it is not a wrong value
+        if got.fault_fired && f.kind.may_fail() && matches!(got.outcome, Outcome::Err(..)) {
             return Ok(true);
         }
     }
